@@ -496,7 +496,36 @@ def threads_run(progs, profile, nthreads, rounds, seed):
     return results
 
 
+def cache_api_probe(sizes, text):
+    """the public cache entry points after cache_configure() with documented size values
+    (None, 0, small, large): each call returns or raises; the outcome of every step is reported"""
+    import yarl
+    out = []
+
+    def step(f):
+        try:
+            r = f()
+            out.append(r if isinstance(r, (str, bool, int)) or r is None else True)
+        except BaseException as e:       # noqa: BLE001 - the type is the observation
+            out.append(_exn(e))
+    try:
+        step(lambda: yarl.cache_configure(idna_encode_size=sizes[0], idna_decode_size=sizes[1], encode_host_size=sizes[2]))
+        step(lambda: str(URL(text)))
+        step(lambda: URL(text).host)
+        step(lambda: str(URL(text).with_host("::1")))
+        step(lambda: all(ci.hits >= 0 for ci in yarl.cache_info().values()))
+        step(lambda: yarl.cache_info()["encode_host"].maxsize == sizes[2])
+        step(lambda: yarl.cache_clear())
+        step(lambda: str(URL(text)))
+        step(lambda: yarl.cache_info()["idna_encode"].currsize >= 0)
+    finally:
+        step(lambda: yarl.cache_configure())
+        step(lambda: yarl.cache_info()["encode_host"].maxsize)
+    return out
+
+
 def register(fn):
+    fn(cache_api_probe)
     fn(history_run)
     fn(threads_run)
     fn(threads_derive)
